@@ -535,7 +535,6 @@ func topLevelExemptHook(pred, succ *ssa.BasicBlock, st pfxState) {
 	}
 }
 
-
 // errPassThrough lists the parameter indexes (incl. receiver) of error-ish type
 // whose contents flow into a result of fn.
 func (c *Ctx) errPassThrough(fn *ssa.Function) []int {
@@ -648,7 +647,6 @@ func (e *pfxEngine) edgeFeasible(pred, succ *ssa.BasicBlock) bool {
 	}
 	return false
 }
-
 
 // alwaysStarError: every error result returned by fn is a non-nil *Error.
 func (c *Ctx) alwaysStarError(fn *ssa.Function) bool {
